@@ -3,7 +3,7 @@ import logging
 import sys
 import traceback
 from contextlib import asynccontextmanager
-from typing import Dict, Optional, Tuple, List, Any, AsyncGenerator
+from typing import Dict, Optional, Tuple, List, Any, AsyncGenerator, Union
 
 import anyio
 from anyio.streams.memory import MemoryObjectSendStream, MemoryObjectReceiveStream
@@ -56,7 +56,7 @@ class StdioClient:
         self._outgoing_recv: Optional[MemoryObjectReceiveStream] = None
 
         # Per-request streams; key = request id - for test compatibility
-        self._pending: Dict[str, MemoryObjectSendStream] = {}
+        self._pending: Dict[Union[str, int], MemoryObjectSendStream] = {}
 
         self.process: Optional[anyio.abc.Process] = None
         self.tg: Optional[anyio.abc.TaskGroup] = None
@@ -120,7 +120,10 @@ class StdioClient:
 
         # PERFORMANCE: Check legacy streams first (more specific routing)
         # Use get() instead of pop() to avoid KeyError and allow dict reuse
-        msg_id_str = str(msg_id)
+        # (an integer id and the string that spells it are different ids: a stream
+        # registered under the id itself is found first; the text form serves
+        # callers that register str(id) whatever the id's type)
+        msg_id_str = msg_id if msg_id in self._pending else str(msg_id)
         # (a per-request stream waits for the *answer*: a request of the server's
         # own that happens to carry the same id is not it)
         legacy_stream = (
@@ -404,9 +407,10 @@ class StdioClient:
     # ------------------------------------------------------------------ #
     # Public API for request lifecycle (for test compatibility)
     # ------------------------------------------------------------------ #
-    def new_request_stream(self, req_id: str) -> MemoryObjectReceiveStream:
+    def new_request_stream(self, req_id: Union[str, int]) -> MemoryObjectReceiveStream:
         """
-        Create a one-shot receive stream for *req_id*.
+        Create a one-shot receive stream for *req_id* (the request's id, or its
+        text form).
         The caller can await .receive() to get the JSONRPCMessage.
         """
         # Use buffer size of 1 to avoid deadlock in tests
